@@ -75,6 +75,10 @@ def d_list(v):
     return v
 
 
+def d_name(v):
+    return v
+
+
 def d_chars(v):
     return [ord(c) for c in v]
 
